@@ -513,9 +513,30 @@ fn value_strategy() -> impl Strategy<Value = String> {
     ]
 }
 
+fn static_pair() -> impl Strategy<Value = (String, String)> {
+    let rows: Vec<(String, String)> = rq::STATIC_TABLE.iter().map(|r| (r.0.to_string(), r.1.to_string())).collect();
+    (proptest::sample::select(rows), 0u8..6).prop_map(|((n, v), m)| {
+        let v2 = match m {
+            0 => v.clone(),
+            1 => v.to_ascii_uppercase(),
+            2 => v.to_ascii_lowercase(),
+            3 => {
+                let mut c = v.chars();
+                match c.next() {
+                    Some(f) => f.to_ascii_uppercase().to_string() + c.as_str(),
+                    None => String::new(),
+                }
+            }
+            4 => format!("{v}x"),
+            _ => v.chars().skip(1).collect(),
+        };
+        (n, v2)
+    })
+}
+
 pub fn headers_case() -> impl Strategy<Value = HeadersCase> {
     proptest::collection::vec(
-        (name_strategy(), value_strategy(), (0u8..3, any::<bool>(), any::<bool>(), any::<u8>(), any::<bool>())),
+        (prop_oneof![3 => (name_strategy(), value_strategy()).boxed(), 1 => static_pair().boxed()], (0u8..3, any::<bool>(), any::<bool>(), any::<u8>(), any::<bool>())).prop_map(|((n, v), o)| (n, v, o)),
         0..16,
     )
     .prop_map(|v| {
@@ -796,6 +817,9 @@ pub fn run(run: &Run) {
             if c.fields.iter().any(|(n, v)| !n.is_ascii() || !v.is_ascii()) {
                 labels.push("headers:non-ascii");
             }
+            if c.fields.iter().any(|(n, v)| rq::STATIC_TABLE.iter().any(|r| r.0 == n && r.1 != v && r.1.eq_ignore_ascii_case(v))) {
+                labels.push("headers:static-value-case-variant");
+            }
             match guarded(|| test_headers(c)) {
                 Ok(()) => Outcome::pass_l(!c.fields.is_empty(), labels),
                 Err((s, m)) => Outcome::fail(s, m),
@@ -803,7 +827,7 @@ pub fn run(run: &Run) {
         },
         |c| serde_json::to_value(c).unwrap(),
     );
-    for l in ["headers:static-exact", "headers:static-name-only", "headers:literal-name", "headers:value>=127", "headers:non-ascii"] {
+    for l in ["headers:static-exact", "headers:static-name-only", "headers:literal-name", "headers:value>=127", "headers:non-ascii", "headers:static-value-case-variant"] {
         run.essential(l);
     }
 
